@@ -197,6 +197,12 @@ def rules_hooks(run):
                 rets = [x for x in q.walk(M, False) if isinstance(x, ast.Return)]
                 shared = [x for x in rets if x.value is not None and q.unparse(x.value) == ps[0]]
                 run.check(not shared, r, m.short, 'a copy is a new object', 'the copy hook returns the object itself: the copied interpreter shares this state with the original', M)
+                if hook == '__deepcopy__':
+                    # a deep copy copies what the object refers to: the hook hands its fields to deepcopy(.., memo) (directly or as __dict__)
+                    dc = [c_ for c_ in q.calls(M) if (dotted(c_.func) or '').split('.')[-1] == 'deepcopy']
+                    fed = any(any(isinstance(x, ast.Name) and x.id == ps[0] for a_ in list(c_.args[:1]) for x in ast.walk(a_)) for c_ in dc)
+                    run.check(bool(dc) and fed, r, m.short, 'the values held by the object are deep-copied', 'the deep-copy hook does not deep-copy the fields of the object: '
+                              'mutable values (event parameters, lists) stay shared between the copied interpreter and the original, so one changes what the other sees', M)
             elif hook == '__setstate__':
                 sp = ps[1] if len(ps) > 1 else None
                 for c, f, k, node in prog.direct_writes(m):
